@@ -10,6 +10,7 @@
 //
 // No parmcb code is included here.
 #pragma once
+#include <algorithm>
 #include <atomic>
 #include <chrono>
 #include <cinttypes>
@@ -60,6 +61,7 @@ struct Crumb {
     std::atomic<uint64_t> variant;
     std::atomic<uint64_t> beat;     // incremented per case; used by the hang monitor
     std::atomic<int> active;        // 1 while inside a case
+    char text[8192];                // optional free-form description of the current case (history harnesses)
 };
 
 struct Shared {
@@ -96,7 +98,7 @@ public:
         sh = new (p) Shared();
         sh->next_unit = 0; sh->units_done = 0; sh->nviol = 0; sh->capped = 0;
         for (auto &c : sh->counters) c = 0;
-        for (auto &c : sh->crumbs) { c.unit = 0; c.sub = 0; c.variant = 0; c.beat = 0; c.active = 0; }
+        for (auto &c : sh->crumbs) { c.unit = 0; c.sub = 0; c.variant = 0; c.beat = 0; c.active = 0; c.text[0] = 0; }
         char tmpl[] = "/dev/shm/vr_viol_XXXXXX";
         int fd = mkstemp(tmpl);
         if (fd >= 0) close(fd);
@@ -116,6 +118,16 @@ public:
         c.beat.fetch_add(1, std::memory_order_relaxed);
         c.active.store(1, std::memory_order_release);
     }
+    // free-form crumb for harnesses whose cases are not addressable by (unit, sub, variant)
+    void crumb_text(const std::string &t) {
+        if (worker_id < 0) return;
+        Crumb &c = sh->crumbs[worker_id];
+        size_t n = std::min(t.size(), sizeof(c.text) - 1);
+        memcpy(c.text, t.data(), n); c.text[n] = 0;
+        c.beat.fetch_add(1, std::memory_order_relaxed);
+        c.active.store(1, std::memory_order_release);
+    }
+    std::string crumb_text_of(int w) const { return std::string(sh->crumbs[w].text); }
     void crumb_done() {
         if (worker_id < 0) return;
         sh->crumbs[worker_id].active.store(0, std::memory_order_release);
@@ -218,6 +230,7 @@ public:
             Violation v;
             v.site = d.first;
             v.cs = d.second;
+            if (c.text[0]) v.cs = c.text;   // history harnesses describe the case themselves
             if (act == 2) { v.cls = "hang"; v.msg = "no progress for " + std::to_string((int) hang_limit_s) + " s; worker killed"; ++res.hangs; }
             else {
                 v.cls = "crash";
